@@ -83,6 +83,17 @@ class ModuleInfo:
                     self.imports[a.asname or a.name] = ("." * node.level) + (node.module or "") + ":" + a.name
             elif isinstance(node, ast.Assign) and len(node.targets) == 1 and isinstance(node.targets[0], ast.Name):
                 self.globals_const[node.targets[0].id] = node.value
+            elif (isinstance(node, ast.Assign) and len(node.targets) == 1 and isinstance(node.targets[0], ast.Subscript) and isinstance(node.targets[0].value, ast.Name)
+                  and isinstance(node.targets[0].slice, ast.Constant) and isinstance(node.value, ast.Constant)):
+                # module-level  NAME["key"] = constant  after  NAME = dict() / {}: folded into a dict literal
+                name = node.targets[0].value.id
+                cur = self.globals_const.get(name)
+                if isinstance(cur, ast.Call) and isinstance(cur.func, ast.Name) and cur.func.id == "dict" and not cur.args and not cur.keywords:
+                    cur = ast.Dict(keys=[], values=[])
+                if isinstance(cur, ast.Dict):
+                    cur.keys.append(node.targets[0].slice)
+                    cur.values.append(node.value)
+                    self.globals_const[name] = cur
 
     def mro(self, cls):
         """linearised ancestors within this module (single inheritance in atomica)"""
